@@ -33,6 +33,7 @@ type Obligation struct {
 
 // Report collects the obligations of one property on one configuration.
 type Report struct {
+	alias string // see Borrow
 	Property string
 	P        *Program
 	Obs      []Obligation
@@ -54,7 +55,21 @@ func (r *Report) Note(format string, a ...interface{}) {
 // Count records an instance count (role instances, sites analysed...).
 func (r *Report) Count(name string, n int) { r.Counts[name] += n }
 
+// Borrow runs f with every rule id reported as `as` (and the original id kept in
+// the construct text): a property whose argument rests on the rules of another
+// re-runs them under its own id.
+func (r *Report) Borrow(as string, f func()) {
+	prev := r.alias
+	r.alias = as
+	defer func() { r.alias = prev }()
+	f()
+}
+
 func (r *Report) add(rule, fn, construct, pos, status, detail string, nontrivial bool) {
+	if r.alias != "" && rule != r.alias {
+		construct = "[" + rule + "] " + construct
+		rule = r.alias
+	}
 	key := r.Property + "/" + rule + "@" + fn + ":" + construct
 	if n := r.seen[key]; n > 0 {
 		r.seen[key] = n + 1
